@@ -4,8 +4,11 @@ Helper lemmas for C09 (gcov text and JSON readers): line splitting, `remove_newl
 `get?` characterisations of the specification's maps.
 -/
 import GrcovModel.Spec.Gcov
+import GrcovModel.Lemmas.GcovLossy
+import GrcovModel.Lemmas.GcovJsonSum
 namespace Grcov.Gcov
 open Grcov AList Grcov.Gcov.Text Grcov.Gcov.Spec
+open Grcov.Lcov (utf8Lossy)
 
 /-! ### association lists built by insertion -/
 
@@ -378,24 +381,110 @@ theorem procStripped_other (a : Acc) (k v : Bytes) (h : (Rec.other k v).WF) :
   rw [e, splitOnce_found 58 k _ hk]
   simp [h1, h2, h3, h4]
 
-/-- every well-formed record, with any line terminator, is read as what it says -/
+/-! ### `from_utf8_lossy` on a whole line (since /repo 7f9b2b3) -/
+
+theorem digit_ascii {d : Nat} (h : isDigit d = true) : d < 128 := by
+  simp [isDigit] at h; omega
+
+theorem Dec.ascii_render (d : Dec) (h : d.WF) : ∀ b ∈ d.render, b < 128 := by
+  intro b hb
+  unfold Dec.render at hb
+  simp only [List.mem_append] at hb
+  rcases hb with hb | hb
+  · cases hp : d.plus <;> simp [hp] at hb; omega
+  · exact digit_ascii (h.2 b hb)
+
+theorem BrTok.ascii_render (t : BrTok) : ∀ b ∈ t.render, b < 128 := by
+  cases t <;> decide
+
+theorem noEol_lossy {t : Bytes} (h : noEol t) : noEol (utf8Lossy t) := by
+  intro b hb
+  rcases Lossy.mem_lossy t b hb with h1 | h1
+  · exact h b h1
+  · simp [isEol]; omega
+
+theorem ascii_append {a b : Bytes} (ha : ∀ x ∈ a, x < 128) (hb : ∀ x ∈ b, x < 128) :
+    ∀ x ∈ a ++ b, x < 128 := by
+  intro x hx
+  rcases List.mem_append.mp hx with h | h
+  · exact ha x h
+  · exact hb x h
+
+theorem ascii_kLcount : ∀ x ∈ kLcount ++ [58], x < 128 := by decide
+theorem ascii_kFunction : ∀ x ∈ kFunction ++ [58], x < 128 := by decide
+theorem ascii_kBranch : ∀ x ∈ kBranch ++ [58], x < 128 := by decide
+theorem ascii_kFile : ∀ x ∈ kFile ++ [58], x < 128 := by decide
+theorem ascii_comma : ∀ x ∈ [44], x < 128 := by decide
+
+/-- every well-formed record, with any line terminator, is read as what it says (the line is
+decoded lossily first: separators and numbers are ASCII and stay where they are, free text is
+decoded piece by piece) -/
 theorem procLine_rec (a : Acc) (r : Rec) (k : Nat) (h : r.WF) :
     procLine a (r.render ++ eol k) = .run (applyRec a r) := by
   unfold procLine
   rw [stripEol_append _ _ (Rec.noEol_render r h) (eol_allEol k)]
   cases r with
-  | lcount l c => exact procStripped_lcount a l c h
-  | function s c n => exact procStripped_function a s c n h
-  | branch l t => exact procStripped_branch a l t h
-  | other k v => exact procStripped_other a k v h
+  | lcount l c =>
+    cases c with
+    | num d =>
+      have ha : ∀ x ∈ (Rec.lcount l (.num d)).render, x < 128 := by
+        simp only [Rec.render]
+        exact ascii_append (ascii_append (ascii_append ascii_kLcount (Dec.ascii_render l h.1))
+          ascii_comma) (Dec.ascii_render d h.2.2.1)
+      rw [Lossy.lossy_of_ascii _ ha]
+      exact procStripped_lcount a l (.num d) h
+    | neg r =>
+      have e : utf8Lossy (Rec.lcount l (.neg r)).render = (Rec.lcount l (.neg (utf8Lossy r))).render := by
+        simp only [Rec.render]
+        rw [Lossy.lossy_ascii_append _ _ (ascii_append (ascii_append ascii_kLcount (Dec.ascii_render l h.1))
+          ascii_comma), Lossy.lossy_ascii_cons 45 r (by decide)]
+      rw [e]
+      exact procStripped_lcount a l (.neg (utf8Lossy r)) ⟨h.1, h.2.1, noEol_lossy h.2.2⟩
+  | function s c n =>
+    obtain ⟨hs, hsv, hc, hcc, hn⟩ := h
+    have e : utf8Lossy (Rec.function s c n).render
+        = (Rec.function s (utf8Lossy c) (utf8Lossy n)).render := by
+      simp only [Rec.render]
+      have : kFunction ++ [58] ++ s.render ++ [44] ++ c ++ [44] ++ n
+          = ((kFunction ++ [58] ++ s.render ++ [44]) ++ c) ++ 44 :: n := by simp
+      rw [this, Lossy.lossy_append_ascii _ 44 n (by decide),
+        Lossy.lossy_ascii_append _ c (ascii_append (ascii_append ascii_kFunction (Dec.ascii_render s hs))
+          ascii_comma)]
+      simp
+    rw [e, procStripped_function a s (utf8Lossy c) (utf8Lossy n)
+      ⟨hs, hsv, noEol_lossy hc, Lossy.not_mem_lossy (by decide) hcc, noEol_lossy hn⟩]
+    have : (utf8Lossy c ≠ [48]) ↔ (c ≠ [48]) :=
+      not_congr (Lossy.lossy_eq_ascii_iff c [48] (by decide))
+    simp only [applyRec, this]
+  | branch l t =>
+    have ha : ∀ x ∈ (Rec.branch l t).render, x < 128 := by
+      simp only [Rec.render]
+      exact ascii_append (ascii_append (ascii_append ascii_kBranch (Dec.ascii_render l h.1))
+        ascii_comma) (BrTok.ascii_render t)
+    rw [Lossy.lossy_of_ascii _ ha]
+    exact procStripped_branch a l t h
+  | other k v =>
+    obtain ⟨hk, hv, hk58, h1, h2, h3, h4⟩ := h
+    have e : utf8Lossy (Rec.other k v).render = (Rec.other (utf8Lossy k) (utf8Lossy v)).render := by
+      simp only [Rec.render]
+      have : k ++ [58] ++ v = k ++ 58 :: v := by simp
+      rw [this, Lossy.lossy_append_ascii k 58 v (by decide)]
+      simp
+    have ne : ∀ s : Bytes, (∀ x ∈ s, x < 128) → k ≠ s → utf8Lossy k ≠ s :=
+      fun s hs hne he => hne ((Lossy.lossy_eq_ascii_iff k s hs).mp he)
+    rw [e]
+    exact procStripped_other a (utf8Lossy k) (utf8Lossy v)
+      ⟨noEol_lossy hk, noEol_lossy hv, Lossy.not_mem_lossy (by decide) hk58,
+       ne _ (by decide) h1, ne _ (by decide) h2, ne _ (by decide) h3, ne _ (by decide) h4⟩
 
 theorem procLine_file (a : Acc) (name : Bytes) (k : Nat) (h : noEol name) :
-    procLine a (kFile ++ [58] ++ name ++ eol k) = .run (onFile a name) := by
+    procLine a (kFile ++ [58] ++ name ++ eol k) = .run (onFile a (utf8Lossy name)) := by
   unfold procLine
   have k1 : noEol kFile := by simp [kFile, noEol, isEol]
   rw [stripEol_append _ _ (by
     simp only [noEol_append, noEol_cons, noEol_nil, and_true]; exact ⟨⟨k1, rfl⟩, h⟩) (eol_allEol k)]
-  exact procStripped_file a name
+  rw [Lossy.lossy_ascii_append _ name ascii_kFile]
+  exact procStripped_file a (utf8Lossy name)
 
 /-! ### glue: lines, sections, report -/
 
@@ -440,7 +529,7 @@ theorem runBytes_recs (a : Acc) (ls : List Line) (rest : Bytes) (h : ∀ l ∈ l
 
 /-- the accumulator after a whole section -/
 def secEnd (a : Acc) (s : FileSec) : Acc :=
-  s.recs.foldl (fun a l => applyRec a l.r) (onFile a s.name)
+  s.recs.foldl (fun a l => applyRec a l.r) (onFile a (utf8Lossy s.name))
 
 theorem runBytes_sec (a : Acc) (s : FileSec) (rest : Bytes) (h : s.WF) :
     runBytes (.run a) (s.render ++ rest) = runBytes (.run (secEnd a s)) rest := by
@@ -506,7 +595,8 @@ theorem foldl_applyRec (rs : List Rec) (a : Acc) :
 def closeCur (a : Acc) : List (Bytes × Cov) := (onFile a []).results
 
 theorem secEnd_eq (a : Acc) (s : FileSec) :
-    secEnd a s = { results := closeCur a, curFile := some s.name, cur := secCov (s.recs.map (·.r)) } := by
+    secEnd a s = { results := closeCur a, curFile := some (utf8Lossy s.name),
+                   cur := secCov (s.recs.map (·.r)) } := by
   unfold secEnd
   rw [← List.foldl_map (f := fun l : Line => l.r) (g := applyRec), foldl_applyRec]
   rfl
@@ -597,7 +687,11 @@ theorem parse_overflow (r : Report) (h : r.WF) (l d : Dec) (k : Nat) (rest : Byt
   unfold parse
   rw [runBytes_report r _ h, runBytes_line _ _ _ _ (lcount_noEol l d hl hd)]
   simp only [stepLine, procLine]
-  rw [stripEol_append _ _ (lcount_noEol l d hl hd) (eol_allEol k),
+  have ha : ∀ x ∈ (Rec.lcount l (.num d)).render, x < 128 := by
+    simp only [Rec.render]
+    exact ascii_append (ascii_append (ascii_append ascii_kLcount (Dec.ascii_render l hl))
+      ascii_comma) (Dec.ascii_render d hd)
+  rw [stripEol_append _ _ (lcount_noEol l d hl hd) (eol_allEol k), Lossy.lossy_of_ascii _ ha,
     procStripped_lcount_overflow _ l d hl hlv hd hdv, runBytes_halt]
   rfl
 
@@ -676,8 +770,14 @@ theorem parse_lcount8 (r : Report) (h : r.WF) (l d : Dec) (flag : Bytes) (k : Na
   unfold parse
   rw [runBytes_report r _ h, runBytes_line _ _ _ _ (lcount8_noEol l d flag hl hd hf)]
   simp only [stepLine, procLine]
-  rw [stripEol_append _ _ (lcount8_noEol l d flag hl hd hf) (eol_allEol k),
-    procStripped_lcount8 _ l d flag hl hlv hd, runBytes_halt]
+  have e : utf8Lossy (lcount8 l d flag) = lcount8 l d (utf8Lossy flag) := by
+    have : lcount8 l d flag = (kLcount ++ [58] ++ l.render ++ [44] ++ d.render ++ [44]) ++ flag := by
+      simp [lcount8]
+    rw [this, Lossy.lossy_ascii_append _ flag (ascii_append (ascii_append (ascii_append (ascii_append
+      ascii_kLcount (Dec.ascii_render l hl)) ascii_comma) (Dec.ascii_render d hd)) ascii_comma)]
+    simp [lcount8]
+  rw [stripEol_append _ _ (lcount8_noEol l d flag hl hd hf) (eol_allEol k), e,
+    procStripped_lcount8 _ l d (utf8Lossy flag) hl hlv hd, runBytes_halt]
   rfl
 
 theorem digitsVal_le (bound acc : Nat) (ds : Bytes) (n : Nat) (ha : acc ≤ bound)
@@ -734,13 +834,13 @@ theorem filterMap_isEmpty {α β : Type} (f : α → Option β) (xs : List α) :
     cases hf : f x <;> simp [ih]
 
 theorem semSec_name (s : FileSec) :
-    (semSec s).map (·.1) = if hasLcount s then some s.name else none := by
+    (semSec s).map (·.1) = if hasLcount s then some (utf8Lossy s.name) else none := by
   unfold semSec hasLcount
   simp only [filterMap_isEmpty, List.any_map]
   cases h : (s.recs.any fun l => (lcountOf l.r).isSome) <;> simp [Function.comp_def, h]
 
 theorem semText_names (r : Report) :
-    (semText r).map (·.1) = (r.secs.filter hasLcount).map (·.name) := by
+    (semText r).map (·.1) = (r.secs.filter hasLcount).map (fun s => utf8Lossy s.name) := by
   unfold semText
   induction r.secs with
   | nil => rfl
@@ -1054,50 +1154,253 @@ theorem decDoc_toJson (d : Doc) (h : d.WF) : decDoc d.toJson = some (d.files.map
     simp [Doc.toJson, decDoc, hc, optStrEntry, req, opt, entries, List.filter, kFormatVersion,
       kGccVersion, kCwd, kDataFile, kFiles, asStr, asOptStr, hf]
 
-theorem foldl_set_map {κ α β : Type} [DecidableEq κ] (xs : List β) (f : β → κ × α) (m : List (κ × α)) :
-    xs.foldl (fun m x => AList.set m (f x).1 (f x).2) m
-      = (xs.map f).foldl (fun m kv => AList.set m kv.1 kv.2) m := by
-  rw [List.foldl_map]
+/-! ### the three folds of a file are the key-by-key denotation (Lemmas/GcovJsonSum.lean) -/
 
-theorem fileLines_eq (f : FileS) : fileLines (f.lines.map toLineJ) = ofList (fileLinePairs f) := by
-  unfold fileLines ofList fileLinePairs
-  rw [List.foldl_map, List.foldl_map]; rfl
+theorem filter_toLineJ (ls : List LineS) (x : Nat) :
+    (ls.map toLineJ).filter (fun e => e.lineNumber = x)
+      = (ls.filter fun e => e.lineNumber = x).map toLineJ := by
+  rw [List.filter_map]; rfl
 
-theorem fileFunctions_eq (f : FileS) :
-    fileFunctions (f.functions.map toFnJ) = ofList (fileFunctionPairs f) := by
-  unfold fileFunctions ofList fileFunctionPairs
-  rw [List.foldl_map, List.foldl_map]; rfl
+theorem fileLines_eq (f : FileS) : fileLines (f.lines.map toLineJ) = semLines f := by
+  have hkeys : (f.lines.map toLineJ).map (·.lineNumber) = f.lines.map (·.lineNumber) := by
+    rw [List.map_map]; rfl
+  have := foldl_eq_tabulate (fun m (ln : LineJ) => addCount m ln.lineNumber ln.count) (·.lineNumber)
+    (fun m x => keys_addCount m x.lineNumber x.count) (f.lines.map toLineJ) (lineCount f) (by
+      intro k hk
+      have := fileLines_get? (f.lines.map toLineJ) k hk
+      unfold fileLines at this
+      rw [this, filter_toLineJ, List.map_map]
+      rfl)
+  rw [hkeys] at this
+  exact this
 
-theorem fileBranches_aux (ls : List LineS) (m : List (Nat × List Bool)) :
-    (ls.map toLineJ).foldl (fun m ln =>
-        if ln.branches.isEmpty then m
-        else AList.set m ln.lineNumber (ln.branches.map fun c => decide (c > 0))) m
-      = ((ls.filter fun l => !l.branches.isEmpty).map fun l =>
-          (l.lineNumber, l.branches.map fun b => decide (b.count.val > 0))).foldl
-            (fun m kv => AList.set m kv.1 kv.2) m := by
-  induction ls generalizing m with
+theorem foldl_zipOr_skip_empty (es : List LineS) (u : List Bool) :
+    ((es.filter fun e => !e.branches.isEmpty).map fun e =>
+        e.branches.map fun b => decide (b.count.val > 0)).foldl zipOr u
+      = (es.map fun e => e.branches.map fun b => decide (b.count.val > 0)).foldl zipOr u := by
+  induction es generalizing u with
   | nil => rfl
-  | cons l ls ih =>
-    have e : (l.branches.map (·.count.val)).map (fun c => decide (c > 0))
-        = l.branches.map fun b => decide (b.count.val > 0) := by
-      rw [List.map_map]; rfl
-    simp only [List.map_cons, List.foldl_cons, List.filter_cons]
-    cases hb : l.branches.isEmpty
-    · simp only [toLineJ, List.isEmpty_map, hb, Bool.false_eq_true, if_false, Bool.not_false,
-        if_true, List.map_cons, List.foldl_cons, e]
+  | cons e es ih =>
+    simp only [List.filter_cons, List.map_cons, List.foldl_cons]
+    cases hb : e.branches.isEmpty
+    · simp only [Bool.not_false, if_true, List.map_cons, List.foldl_cons]; exact ih _
+    · have : e.branches = [] := List.isEmpty_iff.mp hb
+      simp only [Bool.not_true, Bool.false_eq_true, if_false, this, List.map_nil, zipOr_nil_right]
       exact ih _
-    · simp only [toLineJ, List.isEmpty_map, hb, if_true, Bool.not_true, Bool.false_eq_true, if_false]
-      exact ih _
+
+theorem takenAt_eq (e : LineS) (i : Nat) :
+    (e.branches.map fun b => decide (b.count.val > 0)).getD i false
+      = (match e.branches[i]? with
+         | some b => decide (b.count.val > 0)
+         | none => false) := by
+  rw [List.getD_eq_getElem?_getD, List.getElem?_map]
+  cases e.branches[i]? <;> rfl
+
+/-- the OR of the vectors of all entries of a line is the vector the specification describes -/
+theorem foldl_zipOr_entries (f : FileS) (l : Nat) :
+    ((entriesOf f l).map fun e => e.branches.map fun b => decide (b.count.val > 0)).foldl zipOr []
+      = lineBranches f l := by
+  apply ext_getD
+  · rw [foldl_zipOr_length]
+    simp only [lineBranches, List.length_map, List.length_range, branchSlots, List.length_nil,
+      List.map_map]
+    have : ((fun v : List Bool => v.length) ∘ fun e : LineS => e.branches.map fun b => decide (b.count.val > 0))
+        = fun e : LineS => e.branches.length := by
+      funext e; simp
+    rw [this]; omega
+  · intro i hi
+    rw [foldl_zipOr_length] at hi
+    rw [foldl_zipOr_getD]
+    have hi' : i < branchSlots f l := by
+      simp only [branchSlots, List.length_nil, List.map_map] at hi ⊢
+      have : ((fun v : List Bool => v.length) ∘ fun e : LineS => e.branches.map fun b => decide (b.count.val > 0))
+          = fun e : LineS => e.branches.length := by
+        funext e; simp
+      rw [this] at hi; omega
+    simp only [lineBranches, List.getD_eq_getElem?_getD, List.getElem?_map, List.getElem?_range hi',
+      Option.map_some, Option.getD_some, List.getElem?_nil, Option.getD_none, Bool.false_or,
+      branchTaken, List.any_map]
+    congr 1
+    funext e
+    simp only [Function.comp, List.getD_eq_getElem?_getD, List.getElem?_map]
+    cases e.branches[i]? <;> rfl
 
 theorem fileBranches_eq (f : FileS) :
-    fileBranches (f.lines.map toLineJ) = ofList (fileBranchPairs f) := by
-  unfold fileBranches ofList fileBranchPairs
-  exact fileBranches_aux f.lines []
+    fileBranches (f.lines.map toLineJ) = semBranches f := by
+  let pair : LineS → Nat × List Bool := fun e => (e.lineNumber, e.branches.map fun b => decide (b.count.val > 0))
+  have h1 : fileBranches (f.lines.map toLineJ)
+      = ((f.lines.filter fun e => !e.branches.isEmpty).map pair).foldl
+          (fun m e => orBranches m e.1 e.2) [] := by
+    unfold fileBranches
+    rw [foldl_skip (fun m (ln : LineJ) => orBranches m ln.lineNumber (ln.branches.map fun c => decide (c > 0)))
+      (fun ln => ln.branches.isEmpty), List.filter_map, List.foldl_map, List.foldl_map]
+    have hp : ((fun ln : LineJ => !ln.branches.isEmpty) ∘ toLineJ) = fun e : LineS => !e.branches.isEmpty := by
+      funext e; simp [toLineJ]
+    rw [hp]
+    congr 1
+    funext m e
+    simp [pair, toLineJ, List.map_map, Function.comp_def]
+  have hkeys : ((f.lines.filter fun e => !e.branches.isEmpty).map pair).map (·.1)
+      = (f.lines.filter fun e => !e.branches.isEmpty).map (·.lineNumber) := by
+    rw [List.map_map]; rfl
+  have := foldl_eq_tabulate (fun m (e : Nat × List Bool) => orBranches m e.1 e.2) (·.1)
+    (fun m x => keys_orBranches m x.1 x.2) ((f.lines.filter fun e => !e.branches.isEmpty).map pair)
+    (lineBranches f) (by
+      intro k hk
+      rw [get?_foldl_orBranches]
+      have hne : (((f.lines.filter fun e => !e.branches.isEmpty).map pair).filter fun e => e.1 = k).isEmpty
+          = false := by
+        obtain ⟨e, he, rfl⟩ := List.mem_map.mp hk
+        cases h : (((f.lines.filter fun e => !e.branches.isEmpty).map pair).filter fun e' => e'.1 = e.1) with
+        | nil =>
+          have : e ∈ (((f.lines.filter fun e => !e.branches.isEmpty).map pair).filter fun e' => e'.1 = e.1) := by
+            simp [he]
+          rw [h] at this; simp at this
+        | cons _ _ => rfl
+      rw [hne]
+      simp only [Bool.false_eq_true, if_false, get?_nil, Option.getD_none]
+      congr 1
+      rw [← foldl_zipOr_entries, ← foldl_zipOr_skip_empty]
+      congr 1
+      rw [List.filter_map, List.map_map, entriesOf, List.filter_filter, List.filter_filter]
+      have hfl : (f.lines.filter fun a => ((fun e : Nat × List Bool => decide (e.1 = k)) ∘ pair) a && !a.branches.isEmpty)
+          = f.lines.filter fun a => !a.branches.isEmpty && decide (a.lineNumber = k) :=
+        List.filter_congr (fun e _ => by simp [pair, Bool.and_comm])
+      rw [hfl]; rfl)
+  rw [hkeys] at this
+  rw [h1, this]; rfl
+
+theorem filter_toFnJ (fs : List FnS) (x : Name) :
+    (fs.map toFnJ).filter (fun g => g.demangled = x)
+      = (fs.filter fun g => g.demangledName = x).map toFnJ := by
+  rw [List.filter_map]; rfl
+
+theorem fileFunctions_eq (f : FileS) :
+    fileFunctions (f.functions.map toFnJ) = semFunctions f := by
+  have hkeys : (f.functions.map toFnJ).map (·.demangled) = f.functions.map (·.demangledName) := by
+    rw [List.map_map]; rfl
+  have := foldl_eq_tabulate addFunction (·.demangled) keys_addFunction (f.functions.map toFnJ)
+    (fun n => (⟨fnStart f n, fnExecuted f n⟩ : Fn)) (by
+      intro k hk
+      rw [get?_foldl_addFunction, filter_toFnJ]
+      have hmem : ∃ g, g ∈ f.functions.filter fun g => g.demangledName = k := by
+        obtain ⟨e, he, rfl⟩ := List.mem_map.mp hk
+        obtain ⟨g, hg, rfl⟩ := List.mem_map.mp he
+        exact ⟨g, by simp [hg, toFnJ]⟩
+      cases hf : f.functions.filter fun g => g.demangledName = k with
+      | nil => obtain ⟨g, hg⟩ := hmem; rw [hf] at hg; simp at hg
+      | cons g gs =>
+        simp only [List.map_cons, get?_nil, Option.map_none, Option.getD_none, Bool.false_or,
+          fnStart, fnExecuted, fnEntries, hf, List.head?_cons, Option.map_some, Option.getD_some]
+        simp only [toFnJ, List.any_map, Function.comp_def, List.any_cons]
+        rfl)
+  rw [hkeys] at this
+  exact this
+
+theorem semLines_isEmpty (f : FileS) : (semLines f).isEmpty = f.lines.isEmpty := by
+  cases hl : f.lines with
+  | nil => unfold semLines; rw [hl]; rfl
+  | cons e es =>
+    have : e.lineNumber ∈ firstKeys ((e :: es).map (·.lineNumber)) :=
+      (mem_firstKeys _ _).mpr (by simp)
+    unfold semLines
+    rw [hl]
+    cases hk : firstKeys ((e :: es).map (·.lineNumber)) with
+    | nil => rw [hk] at this; simp at this
+    | cons _ _ => rfl
+
+/-! ### the denotation observed through `get?` -/
+
+theorem get?_semLines (f : FileS) (l : Nat) :
+    get? (semLines f) l
+      = if l ∈ f.lines.map (·.lineNumber) then some (lineCount f l) else none := by
+  unfold semLines
+  rw [get?_tabulate]
+  by_cases h : l ∈ f.lines.map (·.lineNumber)
+  · rw [if_pos h, if_pos ((mem_firstKeys _ l).mpr h)]
+  · rw [if_neg h, if_neg (fun h' => h ((mem_firstKeys _ l).mp h'))]
+
+theorem get?_semBranches (f : FileS) (l : Nat) :
+    get? (semBranches f) l
+      = if l ∈ (f.lines.filter fun e => !e.branches.isEmpty).map (·.lineNumber)
+        then some (lineBranches f l) else none := by
+  unfold semBranches
+  rw [get?_tabulate]
+  by_cases h : l ∈ (f.lines.filter fun e => !e.branches.isEmpty).map (·.lineNumber)
+  · rw [if_pos h, if_pos ((mem_firstKeys _ l).mpr h)]
+  · rw [if_neg h, if_neg (fun h' => h ((mem_firstKeys _ l).mp h'))]
+
+theorem get?_semFunctions (f : FileS) (n : Name) :
+    get? (semFunctions f) n
+      = if n ∈ f.functions.map (·.demangledName) then some ⟨fnStart f n, fnExecuted f n⟩ else none := by
+  unfold semFunctions
+  rw [get?_tabulate]
+  by_cases h : n ∈ f.functions.map (·.demangledName)
+  · rw [if_pos h, if_pos ((mem_firstKeys _ n).mpr h)]
+  · rw [if_neg h, if_neg (fun h' => h ((mem_firstKeys _ n).mp h'))]
+
+theorem lineBranches_length (f : FileS) (l : Nat) :
+    (lineBranches f l).length = ((entriesOf f l).map (·.branches.length)).foldr max 0 := by
+  simp [lineBranches, branchSlots]
+
+theorem le_foldr_max (xs : List Nat) (x : Nat) (h : x ∈ xs) : x ≤ xs.foldr max 0 := by
+  induction xs with
+  | nil => simp at h
+  | cons y ys ih =>
+    simp only [List.foldr_cons, List.mem_cons] at h ⊢
+    rcases h with rfl | h
+    · omega
+    · have := ih h; omega
+
+/-- slot `i` is taken iff some entry of the line has a positive count at position `i` -/
+theorem lineBranches_taken (f : FileS) (l i : Nat) :
+    (lineBranches f l).getD i false = true
+      ↔ ∃ e ∈ f.lines, e.lineNumber = l ∧ ∃ b, e.branches[i]? = some b ∧ b.count.val > 0 := by
+  have key : branchTaken f l i = true
+      ↔ ∃ e ∈ f.lines, e.lineNumber = l ∧ ∃ b, e.branches[i]? = some b ∧ b.count.val > 0 := by
+    simp only [branchTaken, entriesOf, List.any_eq_true, List.mem_filter, decide_eq_true_eq]
+    constructor
+    · rintro ⟨e, ⟨he, hl⟩, ht⟩
+      refine ⟨e, he, hl, ?_⟩
+      cases hb : e.branches[i]? with
+      | none => rw [hb] at ht; simp at ht
+      | some b => rw [hb] at ht; exact ⟨b, rfl, by simpa using ht⟩
+    · rintro ⟨e, he, hl, b, hb, hp⟩
+      exact ⟨e, ⟨he, hl⟩, by rw [hb]; simpa using hp⟩
+  rw [← key]
+  by_cases hi : i < branchSlots f l
+  · simp [lineBranches, List.getD_eq_getElem?_getD, List.getElem?_map, List.getElem?_range hi]
+  · have hnone : (lineBranches f l)[i]? = none := by
+      apply List.getElem?_eq_none; simp [lineBranches]; omega
+    have hfalse : branchTaken f l i = false := by
+      rw [Bool.eq_false_iff]
+      intro ht
+      obtain ⟨e, he, hl, b, hb, _⟩ := key.mp ht
+      have hlen : i < e.branches.length := by
+        rcases Nat.lt_or_ge i e.branches.length with h | h
+        · exact h
+        · rw [List.getElem?_eq_none h] at hb; simp at hb
+      have : e.branches.length ≤ branchSlots f l :=
+        le_foldr_max _ _ (List.mem_map.mpr ⟨e, by simp [entriesOf, he, hl], rfl⟩)
+      omega
+    simp [List.getD_eq_getElem?_getD, hnone, hfalse]
+
+theorem fnExecuted_iff (f : FileS) (n : Name) :
+    fnExecuted f n = true
+      ↔ ∃ g ∈ f.functions, g.demangledName = n ∧ g.executionCount.val > 0 := by
+  simp only [fnExecuted, fnEntries, List.any_eq_true, List.mem_filter, decide_eq_true_eq]
+  constructor
+  · rintro ⟨g, ⟨hg, hn⟩, hp⟩; exact ⟨g, hg, hn, hp⟩
+  · rintro ⟨g, hg, hn, hp⟩; exact ⟨g, ⟨hg, hn⟩, hp⟩
+
+theorem fnStart_eq (f : FileS) (n : Name) :
+    fnStart f n = (((f.functions.find? fun g => g.demangledName = n)).map (·.startLine)).getD 0 := by
+  unfold fnStart fnEntries
+  rw [List.head?_filter]
 
 theorem convFile_toFileJ (f : FileS) : convFile (toFileJ f) = semFile f := by
   unfold convFile semFile
-  simp only [toFileJ, fileLines_eq, fileBranches_eq, fileFunctions_eq, ofList_isEmpty]
-  simp [fileLinePairs]
+  simp only [toFileJ, fileLines_eq, fileBranches_eq, fileFunctions_eq, semLines_isEmpty]
 
 /-- fidelity of the JSON reader on every well-formed document -/
 theorem toResults_toJson (d : Doc) (h : d.WF) : toResults d.toJson = .ok (semJson d) := by
